@@ -69,8 +69,9 @@ func mergeMetadataHeaders(into, from http.Header) {
 func isFramingHeader(key string) bool {
 	switch key {
 	case "Content-Type", "Content-Length", "Content-Encoding", "Transfer-Encoding", "Trailer",
-		"Accept-Encoding", "Connect-Content-Encoding", "Connect-Accept-Encoding",
-		"Grpc-Encoding", "Grpc-Accept-Encoding":
+		"Connect-Content-Encoding", "Grpc-Encoding":
+		// What the other server accepts (Accept-Encoding and its protocol-specific
+		// forms) says nothing about a body: it's metadata like any other.
 		return true
 	default:
 		return false
